@@ -178,10 +178,18 @@ impl Translator {
             Mul(rd, rs) => from_base_and_two_regs(0b1011_0000, rd, rs),
             Div(rd, rs) => from_base_and_two_regs(0b1100_0000, rd, rs),
             Inc(reg) => from_base_and_reg(0b0100_0100, reg),
-            Dec(src) => match src {
-                Source::Register(reg) => from_base_and_reg(0b0101_0000, reg),
-                _ => unimplemented!("DEC [something other than R*] does not work yet"),
-            },
+            Dec(src) => {
+                // 0101 MD RD [+ constant / address], like the source byte of the two byte forms
+                let first = 0b0101_0000 + (source_addr_mode(&src) << 2) + source_register(&src);
+                let mut ret = vec![Byte(first)];
+                match src {
+                    Source::Constant(c) | Source::MemAddress(MemAddress::Constant(c)) => {
+                        ret.push(c.into())
+                    }
+                    _ => {}
+                }
+                ret
+            }
             Neg(reg) => from_base_and_reg(0b0011_0100, reg),
             And(rd, rs) => from_base_and_two_regs(0b1001_0000, rd, rs),
             Or(rd, rs) => from_base_and_two_regs(0b1010_0000, rd, rs),
